@@ -76,4 +76,27 @@ PROPS = {
         ],
         "assumptions": ["valid animations whose frames decode (see C06)"],
     },
+    "C09": {
+        "technique": "Lean 4 parse-after-print proof (list induction over the chunk sequence) + byte-exact correspondence with the real encoder, crate decoder and libwebp demuxer read-back",
+        "level_text": "Theorem C09.demux_encode: for every VP8L payload, every ICC/EXIF/XMP payload (empty = not supplied), every size and colour kind with the file below 4 GiB, the encoder's container output has RIFF size = length - 8 and demultiplexes (container grammar Riff.demux) to exactly [VP8X, ICCP?, VP8L, EXIF?, XMP?] with each payload byte for byte; flags bits 2/3/4/5 <=> XMP/EXIF/alpha colour/ICC and nothing else; canvas = image size; every chunk even-padded. The model's bytes and its sequence of write_all calls equal the real WebPEncoder::encode's on every run over all 8 metadata subsets x payload lengths incl. odd x 4 colour types x predictor on/off; the real output is read back through this crate's decoder and libwebp's WebPDemux, and encoded twice for determinism.",
+        "level_note": "Trusted: Lean kernel + standard axioms; the VP8L payload itself is C04's subject; std Write::write_all contract (appends all bytes or fails).",
+        "design_ref": "DESIGN.md section 4, C09",
+        "trusted_base": COMMON_TB + [
+            "modelled, not verified: encoder.rs chunk_size, write_chunk, the container part of WebPEncoder::encode (as the list of write_all arguments)",
+            "specification: Riff.demux - the RIFF/WebP chunk grammar of the container specification as a total demultiplexer; libwebp's WebPDemux as executable cross-check",
+        ],
+        "assumptions": ["total file size below 2^32 (the format's limit; the encoder's u32 size arithmetic would overflow beyond it)", "an empty metadata vector means 'not supplied' (the encoder's documented is_empty test)"],
+    },
+    "C08": {
+        "technique": "Lean 4 field-level theorems for every field value + memory-limit rule + first-binding lemmas; generated-layout correspondence against the model, the layout-defined values and libwebp's demuxer",
+        "level_text": "Theorems for EVERY field value: VP8L 14-bit sizes 1..16384 (maximum included), alpha bit and version; VP8 14-bit sizes under any scale bits; 24-bit canvas sizes up to 2^24; all 256 VP8X flag bytes; 24-bit durations under any flags byte; even rounding of chunk sizes; the memory-limit rule of read_chunk (over-limit => MemoryLimitExceeded before any read or allocation; otherwise the exact bytes of the registered range; absent => None); entry().or_insert keeps the first occurrence; output_buffer_size formula. The whole-file statement over arbitrary chunk orders (C08.scan_full) is stated and, in this pass, established by execution: thousands of generated layouts per run (all four container kinds, all flag combinations, extreme sizes, unknown chunks anywhere, odd padding, metadata at any position, limits around the chunk sizes) are opened with the real decoder and every accessor compared with the layout-defined value, with the Lean model Container.openFile and with libwebp's WebPDemux.",
+        "level_note": "Trusted: Lean kernel + standard axioms; Cursor/BufRead/Seek contracts as modelled (read_exact succeeds iff enough bytes; negative relative seek is an error); the scan-loop parse-after-print theorem is not yet proved (partial).",
+        "design_ref": "DESIGN.md section 4, C08",
+        "trusted_base": COMMON_TB + [
+            "modelled, not verified: decoder.rs read_chunk_header, read_data (three first-chunk kinds, VP8X scan loop incl. ANMF accounting, missing-chunk predicate, ANIM parse, first-frame sub-chunk registration), read_chunk, accessors, output_buffer_size; extended.rs read_extended_header, read_3_bytes; HashMap as first-binding association list",
+            "specification: the container layout by construction (the harness's assembler writes the fields whose values the accessors must return); libwebp WebPDemux on the files it accepts",
+        ],
+        "assumptions": ["well-formed files as the assembler builds them (RIFF size = length - 8, chunks inside the file)"],
+        "partial": ["C08.scan_full (first occurrence of every known chunk is registered with its exact payload range, for every chunk order / unknown chunks / padding) is stated, not yet proved; validated by the generated-layout correspondence"],
+    },
 }
